@@ -158,13 +158,48 @@ def generators(obj, _seen=None, _out=None, _path=""):
     return _out
 
 
+def generator_paths(obj):
+    """Every numpy Generator reachable from obj with ALL the attribute paths that lead to it."""
+    found = {}
+
+    def walk(x, path, stack):
+        if isinstance(x, np.random.Generator):
+            found.setdefault(id(x), (x, set()))[1].add(path)
+            return
+        if isinstance(x, (str, bytes, int, float, np.ndarray, type(None), bool)) or id(x) in stack:
+            return
+        stack = stack | {id(x)}
+        if len(stack) > 40:
+            return
+        if isinstance(x, dict):
+            for k, v in x.items():
+                walk(v, path + "[%r]" % (k,), stack)
+        elif isinstance(x, (list, tuple)):
+            for i, v in enumerate(x):
+                walk(v, path + "[%d]" % i, stack)
+        elif hasattr(x, "__dict__") and not isinstance(x, (types.FunctionType, type, types.ModuleType)):
+            for k in sorted(vars(x)):
+                walk(vars(x)[k], path + "." + k, stack)
+
+    walk(obj, "", frozenset())
+    return list(found.values())
+
+
 def copy_streams(src, dst):
-    """Put every generator of dst at the position of the corresponding generator of src.
-    Returns False when the two object graphs do not own generators at the same paths."""
-    a, b = generators(src), generators(dst)
-    if [p for p, _ in a] != [p for p, _ in b]:
+    """Put every generator of dst at the position of the corresponding generator of src.  Generators correspond
+    when they are reachable through a common attribute path (aliases and caches may add further paths).
+    Returns False when the correspondence is not one-to-one."""
+    a, b = generator_paths(src), generator_paths(dst)
+    if len(a) != len(b):
         return False
-    for (_, ga), (_, gb) in zip(a, b):
+    pairs, used = [], set()
+    for ga, pa in a:
+        match = [j for j, (gb, pb) in enumerate(b) if j not in used and pa & pb]
+        if len(match) != 1:
+            return False
+        used.add(match[0])
+        pairs.append((ga, b[match[0]][0]))
+    for ga, gb in pairs:
         gb.bit_generator.state = ga.bit_generator.state
     return True
 
